@@ -736,6 +736,67 @@ def _render_roundtrip(case):
     return built[0] if built else case
 
 
+# ======================================================================================================
+# (d) populating a directory that already holds a symbolic link
+# ======================================================================================================
+# "entries applied in the listed order, or fails with HARD_ERROR ... nothing is created outside the populated
+# directory": a name of the list that is already taken in the directory - also by a symbolic link, dangling or not -
+# is a clash, and what the link points at (outside the directory) is left alone.
+# (Not included: a nested name `LINK/inner` whose first component is a link to a directory outside - the case itself
+# made that link, and following it is what the file system does; the unchanged tree creates the file there.)
+_LINK_KINDS = {'dangling': 'outside/escaped.txt', 'to-file': 'outside/real.txt', 'to-dir': 'outside/rdir'}
+_LINK_OPS = {'file': 'dir d += {\nfile n.txt = "x"\n}', 'dir-contents-of': 'dir d += dir-contents-of -rel-home src',
+             'dir': 'dir d += {\ndir n.txt\n}', 'nested-file': 'dir d += {\nfile n.txt/inner.txt = "y"\n}',
+             'create-over': 'dir d/n.txt = {\nfile z\n}'}
+
+
+def enum_links(tier):
+    for lk in sorted(_LINK_KINDS):
+        for op in sorted(_LINK_OPS):
+            if (lk, op) == ('to-dir', 'nested-file'):
+                continue
+            for phase in ('setup', 'cleanup'):
+                yield {'link': lk, 'op': op, 'phase': phase}
+
+
+def check_links(case) -> Verdict:
+    labels = ['link:' + case['link'], 'link-op:' + case['op'], 'phase:' + case['phase']]
+    key = 'links|%s|%s|%s' % (case['link'], case['op'], case['phase'])
+    with driver.Workspace() as ws:
+        out_dir = os.path.join(ws.root, 'outside')
+        os.makedirs(os.path.join(out_dir, 'rdir'))
+        with open(os.path.join(out_dir, 'real.txt'), 'w') as f:
+            f.write('real')
+        ws.write('src/n.txt', 'from-src')
+        text = '\n'.join(['[%s]' % case['phase'], 'dir -rel-act d = {', 'file keep.txt = "k"', '}',
+                          '$ ln -s {ROOT}/%s @[EXACTLY_ACT]@/d/n.txt' % _LINK_KINDS[case['link']],
+                          'cd -rel-act .', _LINK_OPS[case['op']], '[act]', '$ true']) + '\n'
+        ws.write('t.case', text)
+        before = driver.tree_snapshot(out_dir)
+        r = driver.run_inproc(ws, ['--keep', 't.case'])
+        after = driver.tree_snapshot(out_dir)
+        kept = None
+        if r.out.endswith('\n') and os.path.isdir(r.out[:-1]):
+            d = os.path.join(r.out[:-1], 'act', 'd')
+            kept = {'entries': sorted(os.listdir(d)) if os.path.isdir(d) else None,
+                    'n.txt-is-link': os.path.islink(os.path.join(d, 'n.txt'))}
+    detail = {'case_text': text, 'exit': r.exit_code, 'stderr': r.err[:600], 'outside_before': before,
+              'outside_after': after, 'populated_directory': kept}
+    if r.exception or r.timed_out:
+        return fail('links/exception-or-timeout', dict(detail, exception=r.exception), labels=labels, nontrivial=True,
+                    key=key)
+    if before != after:
+        return fail('links/created-or-changed-outside-the-populated-directory', detail, labels=labels, nontrivial=True,
+                    key=key)
+    if r.first_err_line != 'HARD_ERROR' or r.exit_code != 128:
+        return fail('links/name-clash-with-a-link-not-a-hard-error/%s' % r.first_err_line, detail, labels=labels,
+                    nontrivial=True, key=key)
+    if kept is None or kept['entries'] != ['keep.txt', 'n.txt'] or not kept['n.txt-is-link']:
+        return fail('links/populated-directory-changed-by-the-failing-entry', detail, labels=labels, nontrivial=True,
+                    key=key)
+    return Verdict(True, nontrivial=True, labels=labels, key=key)
+
+
 _SHRINK = {'quick': 10.0, 'thorough': 60.0}
 
 SUBS = [
@@ -746,4 +807,5 @@ SUBS = [
     Sub('depth_grid', check_match, enumerate=enum_grid, exhaustive=True, render=_render_match),
     Sub('roundtrip', check_roundtrip, strategy=lambda tier: gen.roundtrip_cases(tier),
         budget={'quick': 2000, 'thorough': 30000}, shrink_s=_SHRINK, render=_render_roundtrip),
+    Sub('populate_over_links', check_links, enumerate=enum_links, exhaustive=True, shards={'quick': 2, 'thorough': 2}),
 ]
